@@ -27,7 +27,7 @@ struct Form {
   uint8_t w;          // 0, 1, 2 = ignored
   uint8_t l;          // 0, 1, 2, 3 = ignored
   uint8_t osize;      // legacy GP operand size in bytes (0 = not size-prefixed, 2 => 66, 8 => REX.W)
-  uint8_t nops; Op ops[4];
+  uint8_t nops; Op ops[6];
   uint8_t imm_bytes;  // trailing immediate bytes (not counting is4)
   uint8_t disp8_shift;
   uint8_t flags;
@@ -38,8 +38,8 @@ struct Form {
 // ---- what was handed to the assembler
 struct MemX { bool has_base, has_index, rip, addr32, addr16, vsib, abs_u32; uint32_t base, index, shift, seg; int32_t disp; };
 struct Given {
-  uint32_t reg_enc[4];   // encoding id of a register operand (AH..BH already mapped to 4..7)
-  bool gp8_hi[4], gp8_needs_rex[4];
+  uint32_t reg_enc[6];   // encoding id of a register operand (AH..BH already mapped to 4..7)
+  bool gp8_hi[6], gp8_needs_rex[6];
   MemX mem; int mem_index;   // operand index of the memory operand or -1
   uint64_t imm; uint32_t k; bool z;
   uint32_t er;   // 0: none; 1..4: {rn|rd|ru|rz-sae} (embedded rounding); 5: {sae}
@@ -274,7 +274,7 @@ template<bool X64>
 static void build_operands(const Form* forms, uint32_t nforms, int evex_split, Operand_* o, Given& g, bool in_domain = false) {
   const Form& f0 = forms[0];
   memset(&g, 0, sizeof(g)); g.mem_index = -1;
-  for (int i = 0; i < 4; i++) o[i].reset();
+  for (int i = 0; i < 6; i++) o[i].reset();
   bool evex = false; uint8_t kflags = 0;
   for (uint32_t i = 0; i < nforms; i++) { evex |= forms[i].enc == E_EVEX; kflags |= forms[i].flags; }
   for (uint32_t k = 0; k < f0.nops; k++) {
@@ -386,7 +386,7 @@ static void build_operands(const Form* forms, uint32_t nforms, int evex_split, O
   }
   if (in_domain) {   // a register operand that every record of the group fixes (cl, dx, al..) takes that register
     for (uint32_t k = 0; k < f0.nops; k++) {
-      if (f0.ops[k].kind < K_GP8 || f0.ops[k].kind > K_GP64 || f0.ops[k].fixed < 0) continue;
+      if (f0.ops[k].kind == K_IMM || f0.ops[k].kind == K_MEM || f0.ops[k].kind == K_VMEM || f0.ops[k].fixed < 0) continue;
       bool all_same = true; for (uint32_t i = 1; i < nforms; i++) if (forms[i].ops[k].fixed != f0.ops[k].fixed) all_same = false;
       if (all_same) V_ASSUME(g.reg_enc[k] == uint32_t(f0.ops[k].fixed) && !g.gp8_hi[k]);
     }
@@ -422,11 +422,11 @@ static inline void apply_decorations(x86::Assembler* a, const Given& g) {
 template<bool X64>
 static void run_forms(const Form* forms, uint32_t nforms, int evex_split = 0) {
   const Form& f0 = forms[0];
-  Operand_ o[4]; Given g;
+  Operand_ o[6]; Given g;
   build_operands<X64>(forms, nforms, evex_split, o, g);
   x86::Assembler* a = venv::make_asm(X64, true);
   apply_decorations(a, g);
-  Operand_ ext[3]; ext[0] = o[3]; ext[1].reset(); ext[2].reset();
+  Operand_ ext[3]; ext[0] = o[3]; ext[1] = o[4]; ext[2] = o[5];
   Error e = a->x86::Assembler::_emit(f0.inst, o[0], o[1], o[2], ext);
   size_t n = venv::emitted();
   verif_observe(uint32_t(e)); verif_observe(n); v_observe_bytes(venv::buf, 16);
@@ -449,9 +449,9 @@ static void run_forms(const Form* forms, uint32_t nforms, int evex_split = 0) {
 template<bool X64>
 static void run_agree(const Form* forms, uint32_t nforms, int split = 0) {
   const Form& f0 = forms[0];
-  Operand_ o[4]; Given g;
+  Operand_ o[6]; Given g;
   build_operands<X64>(forms, nforms, split, o, g, true);   // operands inside the records' domain
-  Operand_ ext[3]; ext[0] = o[3]; ext[1].reset(); ext[2].reset();
+  Operand_ ext[3]; ext[0] = o[3]; ext[1] = o[4]; ext[2] = o[5];
   uint8_t b1[16]; Error e1, e2; size_t n1, n2;
   {
     x86::Assembler* a = venv::make_asm(X64, true);
@@ -480,9 +480,9 @@ static char dummy_logger_storage[8];
 template<bool X64>
 static void run_logindep(const Form* forms, uint32_t nforms, int split = 0) {
   const Form& f0 = forms[0];
-  Operand_ o[4]; Given g;
+  Operand_ o[6]; Given g;
   build_operands<X64>(forms, nforms, split, o, g);
-  Operand_ ext[3]; ext[0] = o[3]; ext[1].reset(); ext[2].reset();
+  Operand_ ext[3]; ext[0] = o[3]; ext[1] = o[4]; ext[2] = o[5];
   uint8_t b1[16]; Error e1, e2; size_t n1, n2;
   {
     x86::Assembler* a = venv::make_asm(X64, false);
@@ -513,7 +513,7 @@ static void run_logindep(const Form* forms, uint32_t nforms, int split = 0) {
 template<bool X64>
 static void run_rw(const Form* forms, uint32_t nforms, int split = 0) {
   const Form& f0 = forms[0];
-  Operand_ o[4]; Given g;
+  Operand_ o[6]; Given g;
   build_operands<X64>(forms, nforms, split == 1 || split == 2 ? 0 : 0, o, g);
   // same-register idioms (xor r,r ...) legitimately change the access: outside this harness
   for (uint32_t i = 0; i < f0.nops; i++) for (uint32_t j = i + 1; j < f0.nops; j++)
